@@ -808,10 +808,23 @@ func UpdateResourceRefs(xr resource.ComposedResourcesReferencer, desired Compose
 		refs = append(refs, *ref)
 	}
 
-	// We want to ensure our refs are stable.
+	// We want to ensure our refs are stable. Composed resources of the same
+	// kind may have the same name in different namespaces, so the namespace
+	// must take part in the order - desired is a map, so refs that compare
+	// equal would be persisted in a different order on every reconcile.
 	sort.Slice(refs, func(i, j int) bool {
 		ri, rj := refs[i], refs[j]
-		return ri.APIVersion+ri.Kind+ri.Name < rj.APIVersion+rj.Kind+rj.Name
+		ki, kj := ri.APIVersion+ri.Kind+ri.Name, rj.APIVersion+rj.Kind+rj.Name
+		if ki != kj {
+			return ki < kj
+		}
+		if ri.Namespace != rj.Namespace {
+			return ri.Namespace < rj.Namespace
+		}
+		if ri.Kind != rj.Kind {
+			return ri.Kind < rj.Kind
+		}
+		return ri.Name < rj.Name
 	})
 
 	xr.SetResourceReferences(refs)
